@@ -291,6 +291,10 @@ struct Gen<'p> {
     est_polls: usize,
     stats: CaseStats,
     forced: Forced,
+    /// the open transaction answered MDB_MAP_FULL / MDB_BAD_TXN: only an abort helps
+    txn_broken: bool,
+    /// how many times that happened in this case
+    broken_count: usize,
 }
 
 /// Draws the case-level choices that must be known before the environment exists.
@@ -303,6 +307,9 @@ pub fn run_case(
 ) -> Result<CaseStats, String> {
     let mut r = Prng::new(seed);
     let mapsize = overrides.mapsize.unwrap_or_else(|| p.mapsize.sample(&mut r) as usize);
+    // LMDB wants a multiple of the page size
+    let page = page_size::get();
+    let mapsize = mapsize.div_ceil(page).max(2) * page;
     let env = CaseEnv::new(mapsize)?;
     let _ = writeln!(out, "case {case} seed={seed} mapsize={mapsize}");
     let _ = writeln!(out, "{}", host_line());
@@ -409,6 +416,8 @@ impl<'p> Gen<'p> {
             est_polls: 0,
             stats: CaseStats::default(),
             forced,
+            txn_broken: false,
+            broken_count: 0,
         }
     }
 
@@ -588,6 +597,11 @@ impl<'p> Gen<'p> {
         if o == Outcome::Panic {
             return o;
         }
+        if o == Outcome::Err
+            && (ex.last_res.starts_with("err mapfull") || ex.last_res.contains("MDB_BAD_TXN"))
+        {
+            self.txn_broken = true;
+        }
         let mut touched: Option<usize> = None;
         let is_write;
         match &op {
@@ -661,6 +675,39 @@ impl<'p> Gen<'p> {
             }
         }
         o
+    }
+
+    fn commit(&mut self, ex: &mut Executor) -> Outcome {
+        let o = ex.exec(&Op::Commit);
+        match o {
+            Outcome::Ok => self.committed = self.idx.clone(),
+            // a failed commit is an abort
+            Outcome::Err => self.idx = self.committed.clone(),
+            Outcome::Panic => {}
+        }
+        self.txn_broken = false;
+        o
+    }
+
+    fn abort(&mut self, ex: &mut Executor) -> Outcome {
+        let o = ex.exec(&Op::Abort);
+        if o != Outcome::Panic {
+            self.idx = self.committed.clone();
+        }
+        self.txn_broken = false;
+        o
+    }
+
+    /// After MDB_MAP_FULL the transaction is unusable: abort it and open a new one.
+    fn recover(&mut self, ex: &mut Executor) -> bool {
+        if !self.txn_broken {
+            return true;
+        }
+        self.broken_count += 1;
+        bail_if_dead!(self.abort(ex));
+        bail_if_dead!(ex.exec(&Op::Dump));
+        bail_if_dead!(ex.exec(&Op::Begin));
+        true
     }
 
     fn find(&self, index: u16) -> Option<usize> {
@@ -765,6 +812,9 @@ impl<'p> Gen<'p> {
             }
         };
         bail_if_dead!(self.step(ex, op));
+        if !self.recover(ex) {
+            return false;
+        }
         if self.r.chance(self.p.read_rate) {
             let n = self.p.reads_burst.sample(&mut self.r);
             for _ in 0..n {
@@ -846,10 +896,12 @@ impl<'p> Gen<'p> {
 
     // ---------------------------------------------------------------- reads
 
-    fn read_w(&mut self, i: usize) -> W {
+    /// The `W` of a read: sometimes deliberately another dimension, and -- only for the ops
+    /// that never decode an item with it (`any_metric`) -- another metric.
+    fn read_w(&mut self, i: usize, any_metric: bool) -> W {
         let mut w = self.idx[i].w();
         if self.r.chance(self.p.p_wrong_w) {
-            if self.r.chance(0.5) {
+            if any_metric && self.r.chance(0.6) {
                 w.metric = *self.r.pick(&Metric::ALL);
             } else {
                 w.dims = match self.r.below(3) {
@@ -872,9 +924,14 @@ impl<'p> Gen<'p> {
     }
 
     fn read_op(&mut self, ex: &mut Executor, i: usize) -> Outcome {
-        let w = self.read_w(i);
         let small = self.idx[i].items.len() <= 64;
-        let op = match self.r.below(14) {
+        let kind = self.r.below(14);
+        // the reader ops check the metric name first, need_build / contains_item never
+        // decode a value: those can go through any metric. The writer's get / iter /
+        // is_empty decode the items with the writer's codec: same metric only.
+        let any_metric = !matches!(kind, 4 | 6 | 7);
+        let w = self.read_w(i, any_metric);
+        let op = match kind {
             0 | 1 => Op::NeedBuild(w),
             2 | 3 => Op::Open(w),
             4 => Op::Get(w, self.some_id(i)),
@@ -888,7 +945,13 @@ impl<'p> Gen<'p> {
             11 if small => Op::RIter(w),
             11 => Op::RGet(w, self.some_id(i)),
             12 => Op::RItemIds(w),
-            _ => self.gen_nns(i, false),
+            _ => {
+                let mut op = self.gen_nns(i, false);
+                if let Op::Nns(ow, _) = &mut op {
+                    ow.metric = w.metric;
+                }
+                op
+            }
         };
         ex.exec(&op)
     }
@@ -1012,7 +1075,9 @@ impl<'p> Gen<'p> {
             let w = self.idx[i].w();
             let o = self.step(ex, Op::Build(w, opts));
             bail_if_dead!(o);
-            bail_if_dead!(ex.exec(&Op::Dump));
+            if !self.txn_broken {
+                bail_if_dead!(ex.exec(&Op::Dump));
+            }
             if o == Outcome::Ok {
                 self.stats.builds_ok += 1;
                 self.est_polls = ex.last_polls;
@@ -1025,14 +1090,18 @@ impl<'p> Gen<'p> {
             }
             self.stats.builds_err += 1;
             // the state of the transaction is now whatever the build left
-            bail_if_dead!(ex.exec(&Op::NeedBuild(w)));
-            bail_if_dead!(ex.exec(&Op::Open(w)));
-            if attempts < 3 && self.r.chance(self.p.p_retry_in_txn) {
+            if !self.txn_broken {
+                bail_if_dead!(ex.exec(&Op::NeedBuild(w)));
+                bail_if_dead!(ex.exec(&Op::Open(w)));
+            }
+            if attempts < 3 && !self.txn_broken && self.r.chance(self.p.p_retry_in_txn) {
                 continue;
             }
-            bail_if_dead!(ex.exec(&Op::Abort));
+            if self.txn_broken {
+                self.broken_count += 1;
+            }
+            bail_if_dead!(self.abort(ex));
             bail_if_dead!(ex.exec(&Op::Dump));
-            self.idx = self.committed.clone();
             bail_if_dead!(ex.exec(&Op::Begin));
             return true;
         }
@@ -1116,6 +1185,10 @@ impl<'p> Gen<'p> {
         let rounds = p.rounds.sample(&mut self.r).max(1);
         bail_if_dead!(ex.exec(&Op::Begin));
         for round in 0..rounds {
+            if self.broken_count >= 3 {
+                ex.exec(&Op::Note("the map is full: ending the case".into()));
+                break;
+            }
             let first = round == 0;
             // metric changes
             if !first {
@@ -1142,6 +1215,9 @@ impl<'p> Gen<'p> {
                         let ids: Vec<u32> = self.idx[i].items.keys().copied().collect();
                         let w = self.idx[i].w();
                         for id in ids {
+                            if self.txn_broken {
+                                break;
+                            }
                             bail_if_dead!(self.step(ex, Op::Del(w, id)));
                         }
                     }
@@ -1176,6 +1252,9 @@ impl<'p> Gen<'p> {
                     plan.push(i);
                 }
             }
+            if !self.recover(ex) {
+                return false;
+            }
             if p.interleave {
                 self.r.shuffle(&mut plan);
             }
@@ -1185,9 +1264,8 @@ impl<'p> Gen<'p> {
                 }
             }
             if self.r.chance(p.p_commit_before_build) {
-                bail_if_dead!(ex.exec(&Op::Commit));
+                bail_if_dead!(self.commit(ex));
                 bail_if_dead!(ex.exec(&Op::Dump));
-                self.committed = self.idx.clone();
                 if !self.outside_checks(ex) {
                     return false;
                 }
@@ -1213,9 +1291,8 @@ impl<'p> Gen<'p> {
             match *self.r.weighted(&[(ar.keep, 0u8), (ar.commit, 1), (ar.abort, 2)]) {
                 0 => {}
                 1 => {
-                    bail_if_dead!(ex.exec(&Op::Commit));
+                    bail_if_dead!(self.commit(ex));
                     bail_if_dead!(ex.exec(&Op::Dump));
-                    self.committed = self.idx.clone();
                     if !self.outside_checks(ex) {
                         return false;
                     }
@@ -1230,9 +1307,8 @@ impl<'p> Gen<'p> {
                     }
                 }
                 _ => {
-                    bail_if_dead!(ex.exec(&Op::Abort));
+                    bail_if_dead!(self.abort(ex));
                     bail_if_dead!(ex.exec(&Op::Dump));
-                    self.idx = self.committed.clone();
                     if !self.outside_checks(ex) {
                         return false;
                     }
@@ -1243,11 +1319,9 @@ impl<'p> Gen<'p> {
         // end of the case
         if ex.in_txn() {
             if self.r.chance(0.9) {
-                bail_if_dead!(ex.exec(&Op::Commit));
-                self.committed = self.idx.clone();
+                bail_if_dead!(self.commit(ex));
             } else {
-                bail_if_dead!(ex.exec(&Op::Abort));
-                self.idx = self.committed.clone();
+                bail_if_dead!(self.abort(ex));
             }
         }
         bail_if_dead!(ex.exec(&Op::Dump));
